@@ -15,4 +15,23 @@ partial def runLoop (handle : Sexp → Sexp) : IO Unit := do
     go
   go
 
+/-- the same loop with driver state (e.g. loaded modules) -/
+partial def runLoopS {σ : Type} (init : σ) (handle : σ → Sexp → σ × Sexp) : IO Unit := do
+  let hin ← IO.getStdin
+  let hout ← IO.getStdout
+  let rec go (st : σ) : IO Unit := do
+    let line ← hin.getLine
+    if line.isEmpty then return ()
+    match Sexp.parse line with
+    | some req =>
+      let (st', reply) := handle st req
+      hout.putStrLn (toString reply)
+      hout.flush
+      go st'
+    | none =>
+      hout.putStrLn "(bad-request \"parse\")"
+      hout.flush
+      go st
+  go init
+
 end GqlVerif
